@@ -269,6 +269,32 @@ theorem worm_plan_shape (T : Tbl) (h : Heap) (m s : Nat) (f : Q) (ws : List W) (
       exact ⟨em, es, hm, hs, by simpa using h1, by simpa using h2, by simpa using h3, h4.2, h4.1, h6, h7.2, h7.1, hp.symm⟩
   · simp at hp
 
+/-- incompatible pairs are rejected by `add_worm_gear_mating` -/
+theorem worm_rejects (T : Tbl) (h : Heap) (m s : Nat) (f : Q) (em es : Elem) (hm : h[m]? = some em) (hs : h[s]? = some es)
+    (hbad : isWorm em.kind = false ∨ isWorm es.kind = false ∨ em.kind = es.kind ∨ 1 < f ∨ f < 0 ∨ em.tanB = 0 ∨
+            (∃ a b, em.pressure = some a ∧ es.pressure = some b ∧ qtyNe T a b = true) ∨
+            1 < wormEff (em.kind == .wormGear) em.cosA em.tanB f ∨ wormEff (em.kind == .wormGear) em.cosA em.tanB f < 0) :
+    ∃ e, wormPlan T h m s f = .error e := by
+  cases hp : wormPlan T h m s f with
+  | error e => exact ⟨e, rfl⟩
+  | ok ws =>
+    exfalso
+    obtain ⟨em', es', hm', hs', g1, g2, g3, g4, g5, g6, g7, g8, _⟩ := worm_plan_shape T h m s f ws hp
+    rw [hm] at hm'; rw [hs] at hs'
+    simp only [Option.some.injEq] at hm' hs'; subst hm' hs'
+    rcases hbad with hb | hb | hb | hb | hb | hb | ⟨a, b, ha, hb, hne⟩ | hb | hb
+    · rw [hb] at g1; simp at g1
+    · rw [hb] at g2; simp at g2
+    · exact g3 hb
+    · linarith
+    · linarith
+    · exact g6 hb
+    · unfold wormPlan at hp
+      simp only [hm, hs] at hp
+      split_ifs at hp with h1 h2 h3 h4 h5 <;> simp_all
+    · linarith
+    · linarith
+
 /-- the worm is flagged self-locking exactly when `f > cos α · tan β` (of the worm gear) -/
 theorem worm_selfLocking_iff (cosA tanB f : Q) : decide (cosA * tanB < f) = true ↔ f > cosA * tanB := by simp
 
